@@ -94,7 +94,7 @@ def gen_task(rng, alphabet, nops, env, state):
                 code.append(op(k, o=a, v=rng.randrange(3), w=rng.randrange(1, 4)))
             else:
                 code.append(op(k, o=a, v=rng.randrange(1, 4), w=rng.choice([0, 1, 3]) if k == "store" else rng.choice([0, 1, 4])))
-        elif k in ("yield", "spin", "sleep", "park", "rand"):
+        elif k in ("yield", "spin", "sleep", "park", "rand", "reset_steps"):
             code.append(op(k))
         elif k == "unpark":
             targets = state.get("unpark_targets", [])
@@ -207,7 +207,32 @@ def gen_mpsc(count, seed, drops=False, first_id=2000, fam="mpsc"):
     return out
 
 
+def gen_bounds(count, seed, first_id=3000):
+    """Bodies with known step counts under step bounds around them (both bound kinds)."""
+    rng = random.Random(f"bounds:{seed}")
+    out = []
+    base = gen_family("kernel", count, seed + 17, ntasks=(1, 3), nops=(1, 3)) + \
+        gen_family("kernel_rand", count, seed + 18, ntasks=(1, 2), nops=(1, 4)) + \
+        gen_family("mutex", count // 2 + 1, seed + 19, ntasks=(2, 2), nops=(1, 3))
+    rng.shuffle(base)
+    for i, p in enumerate(base[:count]):
+        p = dict(p)
+        p["fam"] = "bounds"
+        p["id"] = first_id + i
+        steps = sum(len(t) for t in p["tasks"]) + 2
+        n = max(1, steps + rng.choice([-3, -2, -1, 0, 1, 2]))
+        p["maxsteps"] = n if rng.random() < 0.5 else -n
+        if rng.random() < 0.3:
+            t = rng.randrange(len(p["tasks"]))
+            p["tasks"] = [list(x) for x in p["tasks"]]
+            p["tasks"][t].insert(rng.randrange(len(p["tasks"][t]) + 1), op("reset_steps"))
+        out.append(p)
+    return out
+
+
 def family(fam, count, seed):
+    if fam == "bounds":
+        return gen_bounds(count, seed)
     if fam == "mpsc":
         return gen_mpsc(count, seed, drops=False)
     if fam == "mpsc_drop":
